@@ -87,7 +87,9 @@ from quara.objects.mprocess import MProcess
 from quara.objects.qoperations import SetQOperations
 
 TYPES = ("state", "povm", "gate", "mprocess")
-SHAPES = {"1qubit": ("qubit", (0,)), "qutrit": ("qutrit", (0,)), "2qubit": ("qubit", (0, 1))}
+SHAPES = {"1qubit": ("qubit", (0,)), "qutrit": ("qutrit", (0,)), "2qubit": ("qubit", (0, 1)),
+          "qubit_qutrit": (["qubit", "qutrit"], (0, 1))}      # subsystems of different dimension (d = 6)
+BIG = {"qubit_qutrit"}     # large instance: conversions for every configuration, index maps on a sample of the variable indices
 _CS = {}
 
 
@@ -346,6 +348,8 @@ def correspondence(ctx):
         d = c.dim
         if ctx.quick and d == 4 and ty == "mprocess" and m > 3:
             continue
+        if shape in BIG and (m > 3 or (ctx.quick and (m > 2 or ty == "mprocess"))):
+            continue
         n, ns = nvars(ty, d, m, flag), nstacked(ty, d, m)
         ctx.count(f"config {ty} flag={flag}")
         ctx.count(f"shape {shape}")
@@ -401,7 +405,8 @@ def correspondence(ctx):
         add("num_variables", cfg, str(nv), drv.ask("numvars", ty, fl(flag), d, m), "text")
         # every variable index: generated index maps and gradient
         size = d * d
-        for i in range(n):
+        idx_iter = range(n) if shape not in BIG else sorted({0, 1, n - 1, n // 2, *[int(x) for x in g.integers(0, n, size=12)]})
+        for i in idx_iter:
             a, pos = idx_v2o(ty, c, obj, i, flag)
             back = idx_o2v(ty, c, obj, a, flag)
             if ty == "state":
@@ -483,7 +488,7 @@ def all_ops(sq):
 def rand_set(ctx, g, t):
     """a SetQOperations with an arbitrary mix (0..3 of each type, mixed shapes, outcome counts and flags)"""
     objs = {ty: [] for ty in TYPES}
-    shapes = list(SHAPES) if not ctx.quick else ["1qubit", "qutrit", "1qubit", "2qubit"]
+    shapes = [x for x in SHAPES if x not in BIG] if not ctx.quick else ["1qubit", "qutrit", "1qubit", "2qubit"]
     total = 0
     for ty in TYPES:
         cnt = int(g.integers(0, 4)) if t % 4 else int(g.integers(1, 3))
@@ -621,6 +626,10 @@ def check_config(ctx, shape, ty, flag, m, salt, exhaustive=True):
             ctx.violate(sig + "/stacked->var", f"{shape} m={m}: convert_stacked_vector_to_var inconsistent with to_var", rep); return
         # --- number of variables
         nv = tomo_numvars(ty, shape, m, flag, g)
+        nv_np = tomo_numvars(ty, shape, m, np.bool_(flag), g)      # a flag that comes out of a numpy comparison
+        if nv_np != nv:
+            ctx.violate(sig + "/num_variables/numpy-bool-flag", f"{shape} m={m}: num_variables={nv_np} with on_para_eq_constraint=np.bool_({flag}), "
+                        f"{nv} with the python bool", rep); return
         if nv != n or nv != len(obj.to_var()):
             ctx.violate(sig + "/num_variables", f"{shape} m={m}: num_variables={nv}, len(to_var())={len(obj.to_var())}, formula {n}", rep); return
         # --- every variable index
@@ -719,39 +728,59 @@ def check_config_loosened(ctx, shape, ty, m):
                     f"variables differs from the object by {bad:.3g} (implied block entries of size 1e-7)", rep)
 
 
+def _mix_index_checks(ctx, sq, sig, rep):
+    """var_total / total<->local bijection / points-at / set_from_var_total of one SetQOperations as it is now"""
+    order = ("state", "gate", "povm", "mprocess")
+    cur = {"state": sq.states, "gate": sq.gates, "povm": sq.povms, "mprocess": sq.mprocesses}
+    blocks = [o.to_var() for ty in order for o in cur[ty]]
+    ref = np.hstack(blocks) if blocks else np.array([])
+    vt = sq.var_total()
+    if not eq(vt, ref) or sq.size_var_total() != len(ref):
+        ctx.violate(sig + "/var_total", "var_total is not the concatenation states, gates, povms, mprocesses", rep); return False
+    # distinct values through the whole set, so that positions are identifiable
+    v = (np.arange(len(ref), dtype=np.float64) + 1.0) / 8.0
+    new = sq.set_qoperations_from_var_total(v)
+    if not eq(new.var_total(), v):
+        ctx.violate(sig + "/set_from_var_total", "var_total(set_qoperations_from_var_total(v)) != v", rep); return False
+    newobjs = {"state": new.states, "gate": new.gates, "povm": new.povms, "mprocess": new.mprocesses}
+    seen = set()
+    for ty in order:
+        for k, o in enumerate(newobjs[ty]):
+            lv = o.to_var()
+            for j in range(len(lv)):
+                tt = sq.index_var_total_from_local_info(ty, k, j)
+                if not (0 <= tt < len(v)) or v[tt] != lv[j]:
+                    ctx.violate(sig + "/total<-local/points-at", f"({ty},{k},{j}) -> {tt} does not hold that variable", dict(rep, local=[ty, k, j])); return False
+                li = sq.local_info_from_index_var_total(tt)
+                if (li["mode"], li["index_operations"], li["index_var_local"]) != (ty, k, j):
+                    ctx.violate(sig + "/local<-total/inverse", f"total {tt} -> {li}, expected ({ty},{k},{j})", dict(rep, local=[ty, k, j])); return False
+                seen.add(tt)
+    if seen != set(range(len(v))):
+        ctx.violate(sig + "/total<-local/onto", "local -> total is not onto range(size_var_total)", rep); return False
+    return True
+
+
 def check_mix(ctx, t, salt):
     g = ctx.npgen(("mix", t, salt))
     rep = {"kind": "mix", "t": t, "salt": salt, "tier": ctx.tier}
     sig = "C03/SetQOperations"
     try:
         sq, objs = rand_set(ctx, g, t)
-        order = ("state", "gate", "povm", "mprocess")
-        blocks = [o.to_var() for ty in order for o in objs[ty]]
-        ref = np.hstack(blocks) if blocks else np.array([])
-        vt = sq.var_total()
-        ctx.case(("mix", t, salt, len(ref)), nontrivial=True, sample={"op": "SetQOperations", "counts": [len(objs[ty]) for ty in order], "size": len(ref)})
-        if not eq(vt, ref) or sq.size_var_total() != len(ref):
-            ctx.violate(sig + "/var_total", "var_total is not the concatenation states, gates, povms, mprocesses", rep); return
-        # distinct values through the whole set, so that positions are identifiable
-        v = (np.arange(len(ref), dtype=np.float64) + 1.0) / 8.0
-        new = sq.set_qoperations_from_var_total(v)
-        if not eq(new.var_total(), v):
-            ctx.violate(sig + "/set_from_var_total", "var_total(set_qoperations_from_var_total(v)) != v", rep); return
-        newobjs = {"state": new.states, "gate": new.gates, "povm": new.povms, "mprocess": new.mprocesses}
-        seen = set()
-        for ty in order:
-            for k, o in enumerate(newobjs[ty]):
-                lv = o.to_var()
-                for j in range(len(lv)):
-                    tt = sq.index_var_total_from_local_info(ty, k, j)
-                    if not (0 <= tt < len(v)) or v[tt] != lv[j]:
-                        ctx.violate(sig + "/total<-local/points-at", f"({ty},{k},{j}) -> {tt} does not hold that variable", dict(rep, local=[ty, k, j])); return
-                    li = sq.local_info_from_index_var_total(tt)
-                    if (li["mode"], li["index_operations"], li["index_var_local"]) != (ty, k, j):
-                        ctx.violate(sig + "/local<-total/inverse", f"total {tt} -> {li}, expected ({ty},{k},{j})", dict(rep, local=[ty, k, j])); return
-                    seen.add(tt)
-        if seen != set(range(len(v))):
-            ctx.violate(sig + "/total<-local/onto", "local -> total is not onto range(size_var_total)", rep); return
+        ctx.case(("mix", t, salt), nontrivial=True, sample={"op": "SetQOperations", "counts": [len(objs[ty]) for ty in TYPES]})
+        if not _mix_index_checks(ctx, sq, sig, rep):
+            return
+        # the same set object after its lists were edited in place (element replaced by one with the other flag, element appended):
+        # the index conversions are those of the set as it is now
+        c1 = csys("1qubit")
+        if sq.states:
+            f0 = sq.states[0].on_para_eq_constraint
+            sq.states[0] = make_obj("state", sq.states[0].composite_system,
+                                    rand_vals(g, nstacked("state", sq.states[0].dim, 1)), 1, not f0)
+        else:
+            sq.states.append(make_obj("state", c1, rand_vals(g, 4), 1, True))
+        sq.povms.append(make_obj("povm", c1, rand_vals(g, nstacked("povm", 2, 4)), 4, bool(t % 2)))
+        sq.gates.append(make_obj("gate", c1, rand_vals(g, 16), 1, bool((t + 1) % 2)))
+        _mix_index_checks(ctx, sq, sig + "/after-in-place-edit", dict(rep, sequence="index conversions; in-place list edits; index conversions"))
     except Exception as e:  # noqa
         ctx.violate(sig + "/raises", f"{type(e).__name__}: {e}", rep)
 
@@ -762,6 +791,12 @@ def oracle(ctx, volume=1):
             d = csys(shape).dim
             big = d == 4 and ty == "mprocess"
             if ctx.quick and volume == 1 and big and m > 3:
+                continue
+            if shape in BIG:
+                if m > 3 or (ctx.quick and (m > 2 or (ty == "mprocess" and not flag))):
+                    continue
+                check_config(ctx, shape, ty, flag, m, salt, exhaustive=False)
+                ctx.count(f"oracle {ty} flag={flag}")
                 continue
             check_config(ctx, shape, ty, flag, m, salt, exhaustive=not (ctx.quick and big and salt > 0))
             ctx.count(f"oracle {ty} flag={flag}")
